@@ -327,6 +327,7 @@ func runC03(e *Engine, r *Report) {
 		r.floor("GD-known-sender", n, 1)
 	}
 	ruleSingleNodeQuorum(e, r)
+	ruleRaftPredicates(e, r, "upToDate", "dropRequestVote", "termNotMatched")
 }
 
 // canGrantTrueEdges: in the boolean phi that forms the predicate's result,
